@@ -357,6 +357,34 @@ var sliceWriters = map[string]bool{"unicode/utf8.EncodeRune": true, "strconv.App
 
 var nondeterministic = map[string]bool{"time.Now": true, "time.Since": true}
 
+// valuePanics: library calls whose documented panics depend on operand values (not only on static types), with a panic
+// value that is not a runtime.Error. A call is then a possible panic site: it must be allowed by the contract, and the
+// contract's panicpost clauses are checked against an arbitrary panic value.
+var valuePanics = map[string]string{
+	"(reflect.Value).FieldByIndex": "panics with a plain string when the index path crosses a nil embedded pointer",
+}
+
+// libraryPanic treats the call as a possible panic with an unknown value.
+func (e *Engine) libraryPanic(st *State, c *ast.CallExpr, full, why string) {
+	e.stubsUsed[full+": may panic ("+why+")"] = true
+	if len(e.c.PanicPost) > 0 && len(e.inlineStack) == 0 {
+		if obj := e.resVarObj(e.pk, e.c, "panicval"); obj != nil {
+			s2 := st.clone()
+			s2.vars[obj] = e.havocValue("libpanic", obj.Type())
+			site := e.callSite("panic")
+			for i, pp := range e.c.PanicPost {
+				e.spec++
+				v := e.ev(pp.Expr, s2)
+				e.spec--
+				e.obligeNamed(st, fmt.Sprintf("panicpost#%d@%d", i, site), "post", v.T, c.Pos(), fmt.Sprintf("value of a panic raised by %s satisfies %q", full, pp.Text), pp.Prop)
+			}
+		}
+	}
+	if !e.c.Panics {
+		e.oblige(st, "panic", "false", c.Pos(), full+" "+why)
+	}
+}
+
 func (e *Engine) bytesOf(st *State, v Value) (arr, off, ln string) {
 	if isString(v.Typ) {
 		return sx("s_arr", v.T), sx("s_off", v.T), sx("s_len", v.T)
@@ -598,6 +626,9 @@ func (e *Engine) stdStub(full string, c *ast.CallExpr, recv *Value, args []Value
 	}
 	if _, loaded := e.w.Pkgs[pkgPath]; loaded {
 		return nil, false
+	}
+	if why, ok := valuePanics[full]; ok && e.spec == 0 && e.bound == 0 {
+		e.libraryPanic(st, c, full, why)
 	}
 	if purePkgs[pkgPath] {
 		if sliceWriters[full] {
